@@ -278,6 +278,11 @@ def no_session_sweep(stage):
         with net.patched():
             cli = APIClient("10.0.0.1", 6053, None)
             tr = None
+            if stage == "finishing":
+                # the second connect phase is under way: the hello has been written, the device has not answered yet
+                await cli.start_connection()
+                pending_finish = asyncio.ensure_future(cli.finish_connection(login=True))
+                await simnet.drain(loop)
             if stage in ("ended", "ended-after-use", "between"):
                 await cli.start_connection()
                 if stage in ("ended", "ended-after-use"):
@@ -328,6 +333,9 @@ def no_session_sweep(stage):
                 wrote = sum(len(t.writes) for t in net.transports) - n0
                 if out != "L" or wrote:
                     bad.append((mname, out, wrote))
+            if stage == "finishing":
+                pending_finish.cancel()
+                await simnet.drain(loop)
             try:
                 await cli.disconnect(force=True)
             except Exception:  # noqa: BLE001
@@ -500,7 +508,7 @@ def run(rep, tier, seed):
         if r != "accepted":
             rep.violation("C19/refused-in-stop-callback", f"the session was ended by {ending}; start_connection() called from the stop callback (before it first suspends) "
                           f"answered {r!r} although no session is alive and no attempt is in progress", {"kind": "restart-from-hook", "ending": ending})
-    for stage in ("never", "between", "ended", "ended-after-use"):
+    for stage in ("never", "between", "finishing", "ended", "ended-after-use"):
         bad = no_session_sweep(stage)
         rep.case(("no-session-sweep", stage), True, sample={"no_session_sweep": stage, "not_refused": bad[:5]})
         rep.bump("probe:no-session-sweep")
